@@ -1297,3 +1297,26 @@ def mon_c02_all(sc, res):
 
 def mon_c03_all(sc, res):
     return mon_c03(sc, res) + mon_c02(sc, res) + mon_route_refusals(sc, res)
+
+
+# --------------------------------------------------------------------------- upgrade before frames
+
+def mon_ws_upgrade(sc, res):
+    """On a connection of the HTTP/WebSocket endpoint the daemon sends WebSocket frames only after it has sent its
+    `101 Switching Protocols` on that connection (a peer that never saw the 101 cannot know the connection was switched)."""
+    fails = []
+    itr = res["itr"]
+    http_conns = set(st[1] for st in sc.steps if (st[0] == "connect" and st[2] == "ws") or st[0] == "connect_http")
+    got101 = set()
+    flagged = set()
+    for si in range(len(sc.steps)):
+        for s_ in itr.sends[si]:
+            c, ok, kind, payload = s_[0], s_[1], s_[2], s_[3]
+            if c not in http_conns:
+                continue
+            if kind == "http" and payload.startswith(b"HTTP/1.1 101"):
+                got101.add(c)
+            elif kind in ("json", "wsctl") and c not in got101 and c not in flagged:
+                flagged.add(c)
+                fails.append("step %d: WebSocket frame sent to c%d although the daemon never answered its upgrade request with 101" % (si, c))
+    return fails[:3]
